@@ -302,7 +302,7 @@ func ruleNonceVerdictPure(c *Ctx, rule string) {
 			func(e refusalEdge) string {
 				iff, ok := e.from.Instrs[len(e.from.Instrs)-1].(*ssa.If)
 				if !ok {
-					return "not a condition"
+					return ""
 				}
 				stateful := w.dependsOn(iff.Cond, func(v ssa.Value) bool {
 					call, isC := v.(*ssa.Call)
